@@ -2,6 +2,7 @@ package model
 
 import (
 	"fmt"
+	"math"
 	"sort"
 )
 
@@ -251,6 +252,12 @@ func init() {
 				return errOut(n)
 			}
 			count = c
+		}
+		if count > math.MaxInt64/2 {
+			// the reference rejects counts beyond LONG_MAX/2 ("value is out of range"); answering
+			// like any count larger than the container is equally fine: both accepted
+			alt := s.Apply([][]byte{a[0], a[1], []byte("4611686018427387903")})
+			return append(alt, Outcome{Reply: MErr(), Next: begin(s)})
 		}
 		if !ok {
 			return wrongType(n)
